@@ -269,6 +269,28 @@ func TestVerifReaderTrace(t *testing.T) {
 		}
 		buf := make([]byte, L)
 		rng.Read(buf)
+		// value classes: all ones, all zeros, the sign bit alone, runs of 0xFF among other octets (what an integer read
+		// returns must not depend on the value it reads)
+		switch tr % 6 {
+		case 1:
+			for i := range buf {
+				buf[i] = 0xFF
+			}
+		case 2:
+			for i := range buf {
+				buf[i] = 0
+			}
+		case 3:
+			for i := range buf {
+				buf[i] = []byte{0x80, 0, 0, 0, 0, 0, 0, 0}[i%8]
+			}
+		case 4:
+			for i := 0; i+9 <= len(buf); i += 11 {
+				for k := 0; k < 9; k++ {
+					buf[i+k] = 0xFF
+				}
+			}
+		}
 		buf = vSpare(buf)
 		enc.Encode(map[string]interface{}{"op": "new", "buf": vInts(buf)})
 		r := NewReader(buf)
